@@ -11,10 +11,21 @@
   * `bw_reported_once`: after the exception further data is dropped without further exceptions;
   * `bw_recovery` / `nw_recovery`: `rotate_output` after a reported failure returns normally and
     yields a fresh writer, on which fault-free writes deliver exactly their data.
-  Partial: the layers above (encoder staging buffer, compressor) only propagate these
-  exceptions; that composition is tied by the fault-injection correspondence, not proved.
+  The composition for an uncompressed output is proved below over `Model.Stack` – exporter (buffered block,
+  `m_blocks_written`) on encoder (staging buffer, `flush_buffer` anywhere) on the bottom writer, as ONE state machine, for
+  every sequence of API calls, every fault schedule and every placement of the encoder's flushes:
+  * `stack_failure_reported`: an output closed by a `rotate_output` lost no byte unless an API call threw while it was open
+    (the closing call included) – `rotate_output` never returns normally for an output that silently lost bytes;
+  * `stack_block_kept`: an exception out of `write_block()` / a flushing `buffer_*()` leaves the records buffered (the one
+    just handed over included);
+  * `stack_recovery`: after a reported failure `rotate_output(healthy, false)` returns normally with the records still
+    buffered, `write_block()` then writes header and block, and the next rotation closes a complete output
+    `header ++ block ++ break` with nothing thrown.
+  Partial: the compressor between encoder and bottom writer only buffers and propagates; that part (and named outputs'
+  `std::ofstream`) is modelled separately (`CW`, `NW`) and composed by the fault-injection correspondence, not proved.
 -/
 import CdnsVerif.Model.Writer
+import CdnsVerif.Proofs.Stack
 
 namespace CdnsVerif.Props.C16
 open CdnsVerif.Model.Writer CdnsVerif.Spec.Cbor
@@ -253,5 +264,124 @@ theorem ex_header_after_rotation (e : EX) (threw : Bool) :
 theorem ex_old_lost_header : ∃ e : EX, ((e.rotateOld true).writeBlock).2 = false ∧ (e.rotateOld true).writesBreak = true :=
   ⟨⟨1⟩, rfl, rfl⟩
 
+
+/-! ### the whole output stack as one machine (`Model.Stack`) -/
+
+section Stack
+open CdnsVerif.Model.Stack
+variable (hdr : Bytes) (enc : List Nat → Bytes)
+
+/-- between API calls: the bookkeeping of `Proofs.Stack.Core`, and a writer whose failure flag is set has thrown -/
+def SInv (s : St) : Prop := Core s ∧ (s.threw = false → s.w.failed = false)
+
+theorem sinv_init : SInv St.init := ⟨⟨fun _ => rfl, by simp [St.init]⟩, fun _ => rfl⟩
+
+theorem sinv_step (s : St) (op : Op) (h : SInv s) : SInv (step hdr enc s op).1 := by
+  cases op with
+  | buffer r => exact ⟨⟨h.1.1, h.1.2⟩, h.2⟩
+  | bufferW r hc bc =>
+    have hs : Core { s with cur := s.cur ++ [r] } := ⟨h.1.1, h.1.2⟩
+    have c := writeBlock_core hdr enc { s with cur := s.cur ++ [r] } hc bc hs
+    have f := writeBlock_frame hdr enc { s with cur := s.cur ++ [r] } hc bc
+    refine ⟨⟨c.1, c.2⟩, fun hth => ?_⟩
+    simp only [step, Bool.or_eq_false_iff] at hth
+    exact writeBlock_quiet hdr enc _ hc bc hth.2 (h.2 (by rw [← f.1]; exact hth.1))
+  | writeBlock hc bc =>
+    have c := writeBlock_core hdr enc s hc bc h.1
+    have f := writeBlock_frame hdr enc s hc bc
+    refine ⟨⟨c.1, c.2⟩, fun hth => ?_⟩
+    simp only [step, Bool.or_eq_false_iff] at hth
+    exact writeBlock_quiet hdr enc _ hc bc hth.2 (h.2 (by rw [← f.1]; exact hth.1))
+  | rotate exp hc bc kc r =>
+    have c := rotate_core hdr enc s exp hc bc kc r h.1 h.2
+    refine ⟨⟨c.1.1, c.1.2⟩, fun hth => ?_⟩
+    simp only [step, Bool.or_eq_false_iff] at hth
+    exact (c.2 hth.2).1
+
+theorem sinv_run (ops : List Op) : ∀ s, SInv s → SInv (run hdr enc s ops).1 := by
+  induction ops with
+  | nil => intro s h; exact h
+  | cons op ops ih => intro s h; exact ih _ (sinv_step hdr enc s op h)
+
+/-- **Failures are reported.**  Whatever the application calls, wherever the encoder flushes and whichever writes the OS
+    rejects or cuts short: an output that was closed by `rotate_output` and during whose lifetime no API call threw (the
+    closing call included – an output is only closed by a call that returns normally) has reached the OS complete. -/
+theorem stack_failure_reported (ops : List Op) :
+    ∀ o ∈ (run hdr enc St.init ops).1.closed, o.threw = false → o.os = o.given :=
+  (sinv_run hdr enc ops St.init sinv_init).1.2
+
+/-- …and as long as nothing threw for the output still open, the OS and the staging buffer together hold everything produced -/
+theorem stack_open_output_complete (ops : List Op) (h : (run hdr enc St.init ops).1.threw = false) :
+    (run hdr enc St.init ops).1.w.out ++ (run hdr enc St.init ops).1.buf = (run hdr enc St.init ops).1.given :=
+  let i := sinv_run hdr enc ops St.init sinv_init
+  i.1.1 (i.2 h)
+
+/-- **The failed block stays buffered.**  An exception out of `write_block()` leaves the buffered records (and the block
+    counter) as they were; out of a `buffer_*()` call that flushes, the record just handed over is buffered too. -/
+theorem stack_block_kept (s : St) (hc bc : Cuts) :
+    ((step hdr enc s (.writeBlock hc bc)).2 = true → (step hdr enc s (.writeBlock hc bc)).1.cur = s.cur) ∧
+    (∀ r, (step hdr enc s (.bufferW r hc bc)).2 = true → (step hdr enc s (.bufferW r hc bc)).1.cur = s.cur ++ [r]) :=
+  ⟨fun h => (writeBlock_keeps hdr enc s hc bc h).1, fun r h => (writeBlock_keeps hdr enc { s with cur := s.cur ++ [r] } hc bc h).1⟩
+
+/-- **Rotation recovers.**  In any state in which the failure of the current output was reported (`m_failed`), with records
+    buffered: `rotate_output(healthy, false)` returns normally whatever the old output still answers; the records are still
+    buffered; `write_block()` on the new output (writes accepted) returns normally; and the rotation closing it returns
+    normally and leaves exactly `header ++ block(records) ++ break`, all of it accepted by the OS. -/
+theorem stack_recovery (s : St) (h : SInv s) (hf : s.w.failed = true) (hcur : s.cur ≠ [])
+    (kc : Cuts) (r : Resp) (hc bc kc2 : Cuts) (hok : AllOk hc ∧ AllOk bc ∧ AllOk kc2) :
+    let s1 := (step hdr enc s (.rotate false [] [] kc r))
+    let s2 := (step hdr enc s1.1 (.writeBlock hc bc))
+    let s3 := (step hdr enc s2.1 (.rotate false [] [] kc2 .ok))
+    s1.2 = false ∧ s1.1.cur = s.cur ∧ s2.2 = false ∧ s2.1.cur = [] ∧ s3.2 = false ∧
+    s3.1.closed.getLast? = some ⟨hdr ++ enc s.cur ++ [0xff], hdr ++ enc s.cur ++ [0xff], false⟩ := by
+  intro s1 s2 s3
+  have r1 := rotate_recovers hdr enc s kc r hf
+  have c1 := (rotate_core hdr enc s false [] [] kc r h.1 h.2).1
+  -- state after the first rotation (the ghost flag is `false || false`)
+  have e1 : s1.1 = { (rotate hdr enc s false [] [] kc r).1 with threw := (rotate hdr enc s false [] [] kc r).1.threw || false } := by
+    show (step hdr enc s (.rotate false [] [] kc r)).1 = _
+    simp only [step, r1.1]
+  have hs1 : s1.2 = false := by show (step hdr enc s (.rotate false [] [] kc r)).2 = false; simp only [step]; exact r1.1
+  have cur1 : s1.1.cur = s.cur := by rw [e1]; exact r1.2.1
+  have bw1 : s1.1.bw = 0 := by rw [e1]; exact r1.2.2.1
+  have given1 : s1.1.given = [] := by rw [e1]; exact r1.2.2.2.2.1
+  have f1 : s1.1.w.failed = false := by rw [e1]; exact r1.2.2.2.2.2.1
+  have th1 : s1.1.threw = false := by rw [e1]; simp only [Bool.or_false]; exact r1.2.2.2.2.2.2
+  have core1 : Core s1.1 := by rw [e1]; exact ⟨c1.1, c1.2⟩
+  have hcur1 : s1.1.cur ≠ [] := by rw [cur1]; exact hcur
+  -- the block on the fresh output
+  have w2 := writeBlock_fresh hdr enc s1.1 hc bc ⟨hok.1, hok.2.1⟩ f1 bw1 hcur1
+  have c2 := writeBlock_core hdr enc s1.1 hc bc core1
+  have fr2 := writeBlock_frame hdr enc s1.1 hc bc
+  have e2 : s2.1 = { (writeBlock hdr enc s1.1 hc bc).1 with threw := (writeBlock hdr enc s1.1 hc bc).1.threw || false } := by
+    show (step hdr enc s1.1 (.writeBlock hc bc)).1 = _
+    simp only [step, w2.1]
+  have hs2 : s2.2 = false := by show (step hdr enc s1.1 (.writeBlock hc bc)).2 = false; simp only [step]; exact w2.1
+  have core2 : Core s2.1 := by rw [e2]; exact ⟨c2.1, c2.2⟩
+  have f2 : s2.1.w.failed = false := by rw [e2]; exact w2.2.2.2.2
+  have bw2 : s2.1.bw > 0 := by rw [e2]; show (writeBlock hdr enc s1.1 hc bc).1.bw > 0; rw [w2.2.2.2.1]; exact Nat.one_pos
+  have given2 : s2.1.given = hdr ++ enc s.cur := by
+    rw [e2]; show (writeBlock hdr enc s1.1 hc bc).1.given = _; rw [w2.2.1, given1, cur1]; simp
+  have th2 : s2.1.threw = false := by rw [e2]; simp only [Bool.or_false]; rw [fr2.1]; exact th1
+  -- the closing rotation
+  have r3 := rotate_closes_ok hdr enc s2.1 kc2 core2 f2 bw2 hok.2.2
+  refine ⟨hs1, cur1, hs2, by rw [e2]; exact w2.2.2.1, ?_, ?_⟩
+  · show (step hdr enc s2.1 (.rotate false [] [] kc2 .ok)).2 = false
+    simp only [step]; exact r3.1
+  · show (step hdr enc s2.1 (.rotate false [] [] kc2 .ok)).1.closed.getLast? = _
+    simp only [step]
+    rw [r3.2, given2, th2]
+    simp
+
+/-- the hypotheses of `stack_recovery` are met by a real history: a block whose flush the OS rejects -/
+example : let s := (run [1, 2] (fun rs => rs) St.init [.buffer 7, .writeBlock [] [(1, some .fail)]]).1
+    s.w.failed = true ∧ s.cur = [7] ∧ s.threw = true := by decide
+
+/-- a rejected write that nobody reports would be visible here: the closed output of this history lost a byte and is flagged -/
+example : ((run [1, 2] (fun rs => rs) St.init
+    [.buffer 7, .writeBlock [] [(1, some .short)], .rotate false [] [] [] .ok]).1.closed.map fun o => (o.os, o.given, o.threw)) =
+    [([1], [1, 2, 7], true)] := by decide
+
+end Stack
 
 end CdnsVerif.Props.C16
